@@ -437,7 +437,28 @@ def mk_bin(op: str, a, b):
             pass
     if op in ('+', '*') and tag(a) in ('list',) and tag(b) in ('list',) and op == '+':
         return ('list', a[1] + b[1])
+    # index arithmetic: (i + 1) - 1 is i (exact for integers: only done on loop positions and counts)
+    if op in ('+', '-') and is_const(b) and isinstance(b[1], int) and not isinstance(b[1], bool) and \
+            tag(a) == 'bin' and a[1] in ('+', '-') and is_const(a[3]) and isinstance(a[3][1], int) and \
+            not isinstance(a[3][1], bool) and _int_valued(a[2]):
+        k = (a[3][1] if a[1] == '+' else -a[3][1]) + (b[1] if op == '+' else -b[1])
+        if k == 0:
+            return a[2]
+        return ('bin', '+', a[2], C(k)) if k > 0 else ('bin', '-', a[2], C(-k))
     return ('bin', op, a, b)
+
+
+def _int_valued(t) -> bool:
+    tg = tag(t)
+    if tg == 'lv':
+        return t[2] == 'idx'
+    if tg == 'cv':
+        return isinstance(t[2], str) and t[2].endswith('idx')
+    if tg == 'call' and t[1] == ('g', 'builtins.len'):
+        return True
+    if tg == 'bin' and t[1] in ('+', '-', '*', '//', '%'):
+        return _int_valued(t[2]) and (_int_valued(t[3]) or (is_const(t[3]) and isinstance(t[3][1], int)))
+    return False
 
 
 def mk_un(op: str, a):
